@@ -178,7 +178,9 @@ def run(
     for line in out.splitlines():
         m = _RE_COV.match(line)
         if m:
-            r.coverage[f"{m.group(3)}!{m.group(1)}"] = (int(m.group(4)), int(m.group(5)))
+            k = f"{m.group(3)}!{m.group(1)}"      # (an action that appears in several disjuncts of Next is reported once per disjunct)
+            a0, b0 = r.coverage.get(k, (0, 0))
+            r.coverage[k] = (a0 + int(m.group(4)), b0 + int(m.group(5)))
     if r.invariant_violated or r.deadlock:
         keep = False
         for line in out.splitlines():
